@@ -251,6 +251,35 @@ fn do_expand(case: &Value) -> Value {
             }),
         }
     }
+    // "raw_names": every field and variant name is spelled as a raw identifier (`r#a` denotes the same name as `a`)
+    if case.get("raw_names").and_then(|v| v.as_bool()).unwrap_or(false) {
+        use syn::ext::IdentExt as _;
+        fn raw(id: &mut syn::Ident) {
+            let plain = id.unraw().to_string();
+            if !matches!(plain.as_str(), "_" | "self" | "Self" | "super" | "crate") {
+                *id = syn::Ident::new_raw(&plain, id.span());
+            }
+        }
+        fn raw_fields(fields: &mut syn::Fields) {
+            for f in fields.iter_mut() {
+                if let Some(id) = f.ident.as_mut() {
+                    raw(id);
+                }
+            }
+        }
+        match &mut ast.data {
+            syn::Data::Struct(d) => raw_fields(&mut d.fields),
+            syn::Data::Enum(d) => d.variants.iter_mut().for_each(|v| {
+                raw(&mut v.ident);
+                raw_fields(&mut v.fields);
+            }),
+            syn::Data::Union(d) => d.fields.named.iter_mut().for_each(|f| {
+                if let Some(id) = f.ident.as_mut() {
+                    raw(id);
+                }
+            }),
+        }
+    }
     guarded(panic::AssertUnwindSafe(move || {
         match dispatch(&derive, &ast) {
             None => json!({"outcome": "no_such_derive"}),
